@@ -1243,6 +1243,22 @@ pub(crate) fn verify_mmr_proof<'a, T: Iterator<Item = &'a HeaderView>>(
         let errmsg = format!("failed to verify the proof since block#{number} is out of range");
         return Err(StatusCode::InvalidProof.with_context(errmsg));
     }
+    // The MMR library keeps only one of several leaves at the same position: with two different
+    // headers of one number, a proof of either would let both count as proven.
+    {
+        let mut numbers = headers
+            .iter()
+            .map(|header| header.number())
+            .collect::<Vec<_>>();
+        numbers.sort_unstable();
+        if let Some(pair) = numbers.windows(2).find(|pair| pair[0] == pair[1]) {
+            let errmsg = format!(
+                "failed to verify the proof since there are several headers for block#{}",
+                pair[0]
+            );
+            return Err(StatusCode::InvalidProof.with_context(errmsg));
+        }
+    }
     let headers = headers.into_iter();
     let proof: MMRProof = {
         let mmr_size = leaf_index_to_mmr_size(end_number);
